@@ -101,14 +101,14 @@ func (c *Ctx) ruleR06a(rule string) {
 			site := name + " call @" + c.P.InstrPos(cl)
 			errs := ssax.Extracts(cl, 2)
 			if len(errs) == 0 {
-				if name == "combinator.SuppressError$1" {
+				if c.builtBy("combinator.SuppressError")[fn] {
 					c.R.Exempt(name, "SuppressError removes the error from the parser result: its documented purpose")
 					continue
 				}
 				c.R.Violation(rule, name+" discards error", name, c.P.InstrPos(cl), "the error result of a nested parser call is never read: a failure at this point can never be reported")
 				continue
 			}
-			if name == "combinator.SuppressError$1" {
+			if c.builtBy("combinator.SuppressError")[fn] {
 				c.R.Exempt(name, "SuppressError removes the error from the parser result: its documented purpose")
 				continue
 			}
